@@ -879,9 +879,12 @@ class AbstractCircuit(abc.ABC):
                     continue
                 if not circuit.are_all_matches_terminal(predicate):
                     return False
+                # The sub-circuit's qubits are renamed by the operation's qubit map.
+                qubit_map = getattr(op.untagged, 'qubit_map', {})
                 if i < len(self.moments) - 1 and not all(
-                    self.next_moment_operating_on(op.qubits, i + 1) is None
-                    for _, op in circuit.findall_operations(predicate)
+                    self.next_moment_operating_on([qubit_map.get(q, q) for q in sub_op.qubits], i + 1)
+                    is None
+                    for _, sub_op in circuit.findall_operations(predicate)
                 ):
                     return False
         return True
@@ -924,9 +927,12 @@ class AbstractCircuit(abc.ABC):
                     continue
                 if not circuit.are_any_matches_terminal(predicate):
                     continue
+                # The sub-circuit's qubits are renamed by the operation's qubit map.
+                qubit_map = getattr(op.untagged, 'qubit_map', {})
                 if i == len(self.moments) - 1 or any(
-                    self.next_moment_operating_on(op.qubits, i + 1) is None
-                    for _, op in circuit.findall_operations(predicate)
+                    self.next_moment_operating_on([qubit_map.get(q, q) for q in sub_op.qubits], i + 1)
+                    is None
+                    for _, sub_op in circuit.findall_operations(predicate)
                 ):
                     return True
         return False
